@@ -11,6 +11,7 @@ import (
 	"verif/harness/dates"
 	"verif/harness/document"
 	"verif/harness/nodeheap"
+	"verif/harness/warnings"
 )
 
 func main() {
@@ -32,6 +33,8 @@ func main() {
 		err = document.Main(os.Args[2:])
 	case "nodeheap":
 		err = nodeheap.Main(os.Args[2:])
+	case "warnings":
+		err = warnings.Main(os.Args[2:])
 	default:
 		err = fmt.Errorf("unknown engine %q", os.Args[1])
 	}
